@@ -150,13 +150,14 @@ Qed.
 Lemma marked_In c l : marked c l = true <-> In c l.
 Proof. unfold marked. apply memb_In. exact nat_list_eqb_eq. Qed.
 
-Section WithOverlap.
+Section Sound.
+(** the half "True -> the comparison holds everywhere" does not need the view to be duplicate free:
+    a duplicated overlap element only makes [n] larger *)
 Variable cs : list (list nat * list nat).
-Hypothesis OK : overlap_ok cs.
-
-Let ok_nodup := proj1 OK.
-Let ok_sound := proj1 (proj2 OK).
-Let ok_complete := proj2 (proj2 OK).
+Hypothesis ok_sound : forall cc, In cc cs -> exists pi pj, In pi (all_envs (paxes t)) /\ In pj (all_envs (paxes u)) /\
+       fst cc = map snd pi /\ snd cc = map snd pj /\ cell_of t pi = cell_of u pj.
+Hypothesis ok_complete : forall pi pj, In pi (all_envs (paxes t)) -> In pj (all_envs (paxes u)) ->
+       cell_of t pi = cell_of u pj -> In (map snd pi, map snd pj) cs.
 
 Definition pair_cell (cc : list nat * list nat) : list nat :=
   cell_of t (combine (map fst (paxes t)) (fst cc)).
@@ -166,6 +167,73 @@ Proof. intros H. destruct (in_all_envs _ _ H) as [K _]. rewrite <- K. apply comb
 
 Lemma pair_cell_spec pi pj : In pi (all_envs (paxes t)) -> pair_cell (map snd pi, pj) = cell_of t pi.
 Proof. intros H. unfold pair_cell. cbn [fst]. rewrite combine_coords; [reflexivity|exact H]. Qed.
+
+Lemma in_cells idx : In idx cells <-> in_bounds (shape V t) idx.
+Proof. apply all_idx_In. Qed.
+
+Lemma count_overlap_le :
+  length (filter (fun idx => backedb t idx && backedb u idx) cells) <= length cs.
+Proof.
+  rewrite <- (map_length pair_cell cs). apply NoDup_incl_length; [apply NoDup_filter; apply all_idx_NoDup|].
+  intros b Hb. apply filter_In in Hb. destruct Hb as [_ Hb]. apply andb_true_iff in Hb. rewrite !backedb_true in Hb.
+  destruct Hb as [(pi & Hpi & Ei) (pj & Hpj & Ej)]. apply in_map_iff. exists (map snd pi, map snd pj).
+  split; [rewrite pair_cell_spec; assumption|apply ok_complete; trivial; congruence].
+Qed.
+
+Lemma count_argument_weak :
+  (fold_right Nat.mul 1 (shape V t) + length cs <=? pnumel (paxes t) + pnumel (paxes u)) = true ->
+  forallb (fun idx => backedb t idx || backedb u idx) cells = true.
+Proof.
+  rewrite Nat.leb_le, <- filter_len_full.
+  rewrite <- (count_backed V t Wt), <- (count_backed V u Wu), <- Hshape.
+  fold cells. rewrite (filter_incl_excl (backedb t) (backedb u) cells).
+  pose proof count_overlap_le as L. unfold cells at 1. rewrite <- all_idx_length. fold cells. lia.
+Qed.
+
+Theorem verdict_sound_weak :
+  verdict (length cs) cs = true ->
+  forall idx, in_bounds (shape V t) idx -> cmp (denote V t idx) (denote V u idx) = true.
+Proof.
+  unfold verdict.
+    intros H. destruct (forallb _ cs) eqn:A1; [|discriminate]. cbn [negb] in H.
+    apply andb_true_iff in H. destruct H as [H A4]. apply andb_true_iff in H. destruct H as [A2 A3].
+    rewrite forallb_forall in A1. unfold pcoords_all in A3, A4. rewrite forallb_map', forallb_forall in A3, A4.
+    intros idx B.
+    assert (Bu : in_bounds (shape V u) idx) by (rewrite <- Hshape; exact B).
+    destruct (backedb t idx) eqn:Et, (backedb u idx) eqn:Eu.
+    + apply backedb_true in Et, Eu. destruct Et as (pi & Hpi & Ei), Eu as (pj & Hpj & Ej).
+      assert (Hin : In (map snd pi, map snd pj) cs) by (apply ok_complete; trivial; congruence).
+      specialize (A1 _ Hin). cbn [fst snd] in A1.
+      rewrite <- Ei at 1. rewrite <- Ej. rewrite (cell_denote V t pi Wt Hpi), (cell_denote V u pj Wu Hpj). exact A1.
+    + apply backedb_true in Et. destruct Et as (pi & Hpi & Ei).
+      rewrite (unbacked_denote V u idx Wu Bu Eu). rewrite <- Ei, (cell_denote V t pi Wt Hpi).
+      specialize (A3 pi Hpi). apply orb_true_iff in A3. destruct A3 as [A3|A3]; [exact A3|].
+      exfalso. apply marked_In in A3. apply in_map_iff in A3. destruct A3 as (cc & Fc & Hcc).
+      destruct (ok_sound cc Hcc) as (pi' & pj' & Hpi' & Hpj' & Fx & Sx & Cx).
+      assert (pi' = pi) by (apply (all_envs_coords_inj (paxes t)); trivial; congruence). subst pi'.
+      assert (backedb u idx = true); [|congruence]. apply backedb_true. exists pj'. split; [exact Hpj'|congruence].
+    + apply backedb_true in Eu. destruct Eu as (pj & Hpj & Ej).
+      rewrite (unbacked_denote V t idx Wt B Et). rewrite <- Ej, (cell_denote V u pj Wu Hpj).
+      specialize (A4 pj Hpj). apply orb_true_iff in A4. destruct A4 as [A4|A4]; [exact A4|].
+      exfalso. apply marked_In in A4. apply in_map_iff in A4. destruct A4 as (cc & Sc & Hcc).
+      destruct (ok_sound cc Hcc) as (pi' & pj' & Hpi' & Hpj' & Fx & Sx & Cx).
+      assert (pj' = pj) by (apply (all_envs_coords_inj (paxes u)); trivial; congruence). subst pj'.
+      assert (backedb t idx = true); [|congruence]. apply backedb_true. exists pi'. split; [exact Hpi'|congruence].
+    + rewrite (unbacked_denote V t idx Wt B Et), (unbacked_denote V u idx Wu Bu Eu).
+      apply orb_true_iff in A2. destruct A2 as [A2|A2]; [|exact A2]. exfalso.
+      apply count_argument_weak in A2. rewrite forallb_forall in A2. specialize (A2 idx (proj2 (in_cells idx) B)).
+      rewrite Et, Eu in A2. discriminate.
+Qed.
+
+End Sound.
+
+Section WithOverlap.
+Variable cs : list (list nat * list nat).
+Hypothesis OK : overlap_ok cs.
+
+Let ok_nodup := proj1 OK.
+Let ok_sound := proj1 (proj2 OK).
+Let ok_complete := proj2 (proj2 OK).
 
 (** the overlap list is in bijection with the cells backed on both sides *)
 Lemma count_overlap :
@@ -200,44 +268,13 @@ Proof.
   unfold cells at 1. rewrite <- all_idx_length. fold cells. lia.
 Qed.
 
-Lemma in_cells idx : In idx cells <-> in_bounds (shape V t) idx.
-Proof. apply all_idx_In. Qed.
-
 Theorem verdict_correct :
   verdict (length cs) cs = true <->
   forall idx, in_bounds (shape V t) idx -> cmp (denote V t idx) (denote V u idx) = true.
 Proof.
-  unfold verdict. split.
-  - (* True -> the comparison holds in every cell *)
-    intros H. destruct (forallb _ cs) eqn:A1; [|discriminate]. cbn [negb] in H.
-    apply andb_true_iff in H. destruct H as [H A4]. apply andb_true_iff in H. destruct H as [A2 A3].
-    rewrite forallb_forall in A1. unfold pcoords_all in A3, A4. rewrite forallb_map', forallb_forall in A3, A4.
-    intros idx B.
-    assert (Bu : in_bounds (shape V u) idx) by (rewrite <- Hshape; exact B).
-    destruct (backedb t idx) eqn:Et, (backedb u idx) eqn:Eu.
-    + apply backedb_true in Et, Eu. destruct Et as (pi & Hpi & Ei), Eu as (pj & Hpj & Ej).
-      assert (Hin : In (map snd pi, map snd pj) cs) by (apply ok_complete; trivial; congruence).
-      specialize (A1 _ Hin). cbn [fst snd] in A1.
-      rewrite <- Ei at 1. rewrite <- Ej. rewrite (cell_denote V t pi Wt Hpi), (cell_denote V u pj Wu Hpj). exact A1.
-    + apply backedb_true in Et. destruct Et as (pi & Hpi & Ei).
-      rewrite (unbacked_denote V u idx Wu Bu Eu). rewrite <- Ei, (cell_denote V t pi Wt Hpi).
-      specialize (A3 pi Hpi). apply orb_true_iff in A3. destruct A3 as [A3|A3]; [exact A3|].
-      exfalso. apply marked_In in A3. apply in_map_iff in A3. destruct A3 as (cc & Fc & Hcc).
-      destruct (ok_sound cc Hcc) as (pi' & pj' & Hpi' & Hpj' & Fx & Sx & Cx).
-      assert (pi' = pi) by (apply (all_envs_coords_inj (paxes t)); trivial; congruence). subst pi'.
-      assert (backedb u idx = true); [|congruence]. apply backedb_true. exists pj'. split; [exact Hpj'|congruence].
-    + apply backedb_true in Eu. destruct Eu as (pj & Hpj & Ej).
-      rewrite (unbacked_denote V t idx Wt B Et). rewrite <- Ej, (cell_denote V u pj Wu Hpj).
-      specialize (A4 pj Hpj). apply orb_true_iff in A4. destruct A4 as [A4|A4]; [exact A4|].
-      exfalso. apply marked_In in A4. apply in_map_iff in A4. destruct A4 as (cc & Sc & Hcc).
-      destruct (ok_sound cc Hcc) as (pi' & pj' & Hpi' & Hpj' & Fx & Sx & Cx).
-      assert (pj' = pj) by (apply (all_envs_coords_inj (paxes u)); trivial; congruence). subst pj'.
-      assert (backedb t idx = true); [|congruence]. apply backedb_true. exists pi'. split; [exact Hpi'|congruence].
-    + rewrite (unbacked_denote V t idx Wt B Et), (unbacked_denote V u idx Wu Bu Eu).
-      apply orb_true_iff in A2. destruct A2 as [A2|A2]; [|exact A2]. exfalso.
-      apply count_argument in A2. rewrite forallb_forall in A2. specialize (A2 idx (proj2 (in_cells idx) B)).
-      rewrite Et, Eu in A2. discriminate.
-  - (* the comparison holds in every cell -> True *)
+  split; [apply (verdict_sound_weak cs ok_sound ok_complete)|]. unfold verdict.
+  {
+  (* the comparison holds in every cell -> True *)
     intros H.
     assert (A1 : forallb (fun cc => cmp (physical t (fst cc)) (physical u (snd cc))) cs = true).
     { apply forallb_forall. intros cc Hcc. destruct (ok_sound cc Hcc) as (pi & pj & Hpi & Hpj & Fx & Sx & Cx).
@@ -267,6 +304,7 @@ Proof.
         apply in_map_iff. exists (map snd pi, map snd pj). split; [reflexivity|]. apply ok_complete; trivial.
       * apply orb_true_iff. left. specialize (H _ B).
         rewrite (cell_denote V u pj Wu Hpj), (unbacked_denote V t _ Wt B Et) in H. exact H.
+  }
 Qed.
 
 End WithOverlap.
